@@ -17,8 +17,10 @@ import (
 	"fmt"
 	"os"
 	"reflect"
+	"runtime/debug"
 	"sort"
 	"strings"
+	"time"
 
 	mocker "github.com/tencent/goom"
 	"github.com/tencent/goom/arg"
@@ -339,12 +341,108 @@ func scenarios(thorough bool) []scenario {
 		}
 	}
 
-	// ---- variables (Set/Reset go through the same logging) ----
+	// ---- all pairs (node argument x interface argument) through a recording callback ----
+	xvals := []named{{"nil", nil}, {"int", 3}, {"bomb", bomb}, {"typedNilErr", errTypedNil}, {"selfCycle", nodeSelf}, {"twoCycle", nodeA},
+		{"hidden", hidOne}, {"ptrHidden", &hidOne}, {"nilMap", mapNil}, {"nilSlice", sliceNil}, {"nilFunc", (func() int)(nil)}, {"list", []interface{}{nodeSelf, nil, bomb}},
+		{"dict", map[string]interface{}{"n": nodeA, "z": nil, "b": bomb}}, {"nilIntPtr", (*int)(nil)}}
+	for _, n := range nodes() {
+		for _, xv := range xvals {
+			n, xv := n, xv
+			add(fmt.Sprintf("Gpair/%s/%s", n.name, xv.name), func(tr *transcript) {
+				b := mocker.Create()
+				defer b.Reset()
+				b.Func(t.G).Apply(func(p *t.Node, e error, f func() int, m map[string]int, s []int, h t.Hidden, sp fmt.Stringer, x interface{}) int {
+					tr.add("  cb G(%s,…,%s)", render(p), render(x))
+					if sp != nil {
+						return 66
+					}
+					return 65
+				})
+				p := n.v.(*t.Node)
+				tr.do("G(p,…,x)", func() string { return fmt.Sprint(t.G(p, nil, nil, nil, nil, hidZero, nil, xv.v)) })
+				tr.do("G(p,…,bomb,x)", func() string { return fmt.Sprint(t.G(p, errTypedNil, fnSeven, mapOne, sliceTwo, hidOne, bomb, xv.v)) })
+			})
+		}
+	}
+
+	// ---- origin placeholder through the debug wrapper ----
+	add("Origin/apply", func(tr *transcript) {
+		b := mocker.Create()
+		defer b.Reset()
+		o := t.OF
+		b.Func(t.F).Origin(&o).Apply(func(a int, s string) int {
+			tr.add("  cb F(%d,%q) -> origin", a, s)
+			return o(a, s) + 1000
+		})
+		for _, a := range fArgs {
+			a := a
+			tr.do(fmt.Sprintf("F(%v,%q)", a[0], a[1]), func() string { return fmt.Sprint(bigStack(func() int { return t.F(a[0].(int), a[1].(string)) })) })
+		}
+	})
+
+	// ---- unexported function by name ----
+	for mi, mock := range []string{"apply", "as-return", "as-when"} {
+		mock := mock
+		add(fmt.Sprintf("Unexported/%d-%s", mi, mock), func(tr *transcript) {
+			b := mocker.Create()
+			defer b.Reset()
+			switch mock {
+			case "apply":
+				b.Pkg(t.Pkg).ExportFunc("hidden").Apply(func(p *t.Node, x interface{}) int { tr.add("  cb hidden(%s,%s)", render(p), render(x)); return 81 })
+			case "as-return":
+				b.Pkg(t.Pkg).ExportFunc("hidden").As(func(p *t.Node, x interface{}) int { return 0 }).Return(82)
+			case "as-when":
+				b.Pkg(t.Pkg).ExportFunc("hidden").As(func(p *t.Node, x interface{}) int { return 0 }).Return(83).When(nodeNil, arg.Any()).Return(84)
+			}
+			for _, n := range nodes() {
+				n := n
+				tr.do("hidden("+n.name+",bomb)", func() string { return fmt.Sprint(t.CallHidden(n.v.(*t.Node), bomb)) })
+			}
+		})
+	}
+
+	// ---- variables (Set/Apply/Reset are logged too) ----
+	add("Var/set-apply-reset", func(tr *transcript) {
+		b := mocker.Create()
+		b.Var(&t.VarNode).Set(nodeSelf)
+		tr.add("VarNode=%s", render(t.VarNode))
+		b.Var(&t.VarNode).Apply(func() *t.Node { return nodeA })
+		tr.add("VarNode=%s", render(t.VarNode))
+		b.Var(&t.VarAny).Set(bomb)
+		tr.add("VarAny=%s", render(t.VarAny))
+		b.UnExportedVar(t.Pkg + ".varHidden").Set(hidOne)
+		tr.add("varHidden=%s", render(t.ReadVarHidden()))
+		b.Reset()
+		tr.add("after reset: %s %s %s", render(t.VarNode), render(t.VarAny), render(t.ReadVarHidden()))
+	})
+
+	// ---- time.Now is what the logger itself calls ----
+	add("TimeNow/return", func(tr *transcript) {
+		b := mocker.Create()
+		defer b.Reset()
+		fixed := time.Unix(1700000000, 0).UTC()
+		b.Func(time.Now).Return(fixed)
+		tr.do("time.Now()", func() string { return time.Now().UTC().Format(time.RFC3339) })
+		tr.do("F after", func() string { return fmt.Sprint(t.F(1, "a")) })
+	})
+	add("TimeNow/apply", func(tr *transcript) {
+		// The logger itself calls time.Now, so a replacement of time.Now is also invoked by goom's
+		// own logging; "the same calls" is read as the calls made by the program under test, hence
+		// the callback is stateless (a counting callback sees the logger's calls: DESIGN 9.3).
+		b := mocker.Create()
+		defer b.Reset()
+		b.Func(time.Now).Apply(func() time.Time { return time.Unix(1700000001, 0).UTC() })
+		tr.do("time.Now()", func() string { return time.Now().UTC().Format(time.RFC3339) })
+		tr.do("time.Now()#2", func() string { return time.Now().UTC().Format(time.RFC3339) })
+	})
 	return out
 }
 
 // Run is the worker entry point.
 func Run(c *vk.Ctx) {
+	// a logging path that recurses (e.g. logging about time.Now, which the logger itself calls)
+	// must die quickly, not after filling a 1 GB stack
+	debug.SetMaxStack(32 << 20)
 	switch c.Sub {
 	case "off":
 	case "debug":
@@ -397,8 +495,14 @@ func Run(c *vk.Ctx) {
 	}
 	hashes := map[string]string{}
 	texts := map[string]string{}
+	c.Res.Extra["hashes"] = hashes
+	c.Res.Extra["texts"] = texts
+	c.Res.Extra["config"] = c.Sub
 	for i, s := range scs {
-		c.Mark(int64(i))
+		if !c.Mine(int64(i)) {
+			continue
+		}
+		c.Note(fmt.Sprintf(`{"__key":"scenario=%s config=%s","scenario":%q,"config":%q}`, s.id, c.Sub, s.id, c.Sub))
 		tr := &transcript{}
 		tr.do("scenario", func() string { s.run(tr); return "done" })
 		sum := sha1.Sum([]byte(tr.sb.String()))
@@ -409,12 +513,28 @@ func Run(c *vk.Ctx) {
 		c.Res.States++
 		c.Res.Transitions += int64(strings.Count(tr.sb.String(), "\n"))
 		c.Distinct(hashes[s.id])
+		c.Checkpoint()
 		if i%37 == 0 {
 			c.Sample(map[string]interface{}{"scenario": s.id, "transcript": strings.Split(strings.TrimSpace(tr.sb.String()), "\n")})
 		}
 	}
-	c.Res.Extra["hashes"] = hashes
-	c.Res.Extra["texts"] = texts
 	c.Res.Extra["config"] = c.Sub
 	c.Finish()
+}
+
+//go:noinline
+func grow(n int) int {
+	var b [256]byte
+	b[n%256] = byte(n)
+	if n == 0 {
+		return int(b[0])
+	}
+	return grow(n-1) + int(b[n%256])
+}
+
+// bigStack runs f after growing the stack, so that calls through an origin placeholder do not
+// run near the stack guard (that behaviour is C03's known finding, not C19's subject).
+func bigStack(f func() int) int {
+	grow(128)
+	return f()
 }
